@@ -539,6 +539,11 @@ def tags(case, impl, model):
         if key in impl:
             out.append(f"{key}:" + ("ok" if "ok" in impl[key] else impl[key]["err"]))
     out.append("fragment:" + str(in_fragment(case["cls"])))
+    m = (model or {}).get("out") or {}
+    if "inFrag" in m:
+        out.append("proved-fragment(class_round_trip_partial | class_round_trip_extras_partial):" + str(bool(m["inFrag"] or m.get("inFragExtras"))))
+    if "exactDecl" in m:
+        out.append("proved-fragment(deserialize_exact_partial):" + str(m["exactDecl"]))
     out.append("model-scope:" + str(in_model_scope(case["cls"])))
     return out
 
